@@ -95,6 +95,31 @@ func Sensitivity(p *core.Property, seed int64) map[string]interface{} {
 		}(i, it)
 	}
 	wg.Wait()
+	// a seed this property's rules do not see may be seen by a sibling property's check (the edit sits in
+	// a function that property anchors): taken from the last recorded seed run, for the reader's orientation
+	var recorded map[string]struct {
+		CaughtBy map[string][]string `json:"caught_by"`
+	}
+	if b, err := os.ReadFile("/verif/seeded/RESULTS.json"); err == nil {
+		_ = json.Unmarshal(b, &recorded)
+	}
+	for i := range outs {
+		if outs[i].Detected || outs[i].Note != "" {
+			continue
+		}
+		var sib []string
+		for prop := range recorded[outs[i].ID].CaughtBy {
+			if prop != p.ID {
+				sib = append(sib, prop)
+			}
+		}
+		sort.Strings(sib)
+		if len(sib) > 0 {
+			outs[i].Note = "not seen by this property's rules; the recorded seed run shows it reported by the check of " + strings.Join(sib, ", ")
+		} else {
+			outs[i].Note = "not seen by any rule (see DESIGN.md §9.4 for the value-level changes that stay out of reach)"
+		}
+	}
 	det := 0
 	var missed []string
 	for _, o := range outs {
